@@ -166,6 +166,10 @@ class DiameterAssociation(object):
         self.transport.close()
         self.transport = None
 
+        #: Whatever ended the connection, an application thread blocked in 
+        #: get_message() has to be woken up.
+        self.postprocess_recv_messages_ready.set()
+
 
     def recv_message_from_queue(self) -> None:
         while not self._stop_threads and self.transport:
@@ -334,6 +338,13 @@ class DiameterAssociation(object):
                 self.postprocess_recv_messages_ready.wait()
                 diameter_conn_logger.debug("Got go ahead for "\
                                            "postprocess_recv_messages_ready")
+
+                if self.postprocess_recv_messages.empty():
+                    #: Woken up without a message: the connection has been 
+                    #: closed (the loop ends) or another consumer took it. 
+                    #: Fetching from the empty queue would block forever 
+                    #: while holding the association lock.
+                    continue
             else:
                 diameter_conn_logger.debug("No need to wait for go ahead for "\
                                            "postprocess_recv_messages_ready")
